@@ -79,6 +79,12 @@ CHECKS = {
          "holder's record is complete and that counters add up; trylock is probed with a clock-free handshake (FALSE and returning while held, TRUE when free) and single-threaded; TSan builds use plain payload only so a weakened "
          "acquire/release is reported as a race. A driver-internal progress watchdog turns a lock call that never returns into a violation.",
     note="TSan not applied to the sync model; interleavings are those the OS produces under oversubscription."),
+ "C03": dict(cat="exploration", ref="§3 C03",
+    technique="runtime monitors over producer/consumer logs (exactly-once, order, termination), in-monitor exclusion assertions, registered-waiter wake counting, trylock probe for mutex-held-on-return; ASan and TSan builds",
+    text="Bounded buffers (capacity 1-4) with up to 33x33 producers/consumers in signal and broadcast variants are checked offline for loss, duplication and per-producer order and online for another thread inside the monitor after "
+         "lock/wait returned; W<=64 waiters registered under the mutex must all arrive after ONE broadcast and at least one after ONE signal; a woken waiter that stays inside must make a prober's trylock fail; TSan decides "
+         "the atomicity of release-and-wait on plain monitor data; a progress watchdog reports lost wake-ups.",
+    note="Wake-up arrival uses a generous 20 s wall-clock bound; glibc condvars trusted as far as observed."),
 }
 
 NOT_YET = {}
